@@ -226,6 +226,26 @@ class Env:
             self._dep_cache[key] = pred
         return self._dep_cache[key]
 
+    def shared_check(self, predname):
+        """one @dependent_check condition object (declared on int) that a user reuses under several bounds: bare, and
+        as Dependent[other_bound, that_object]"""
+        key = ("shared", predname)
+        if key not in self._dep_cache:
+            raw = VALUE_PREDS[predname]
+            log = self.predlog
+
+            def cond(value: int):
+                log.value_count += 1
+                if log.fault_at is not None:
+                    log.fault_count += 1
+                    if log.fault_count == log.fault_at:
+                        raise HookFault(predname)
+                return raw(value)
+
+            cond.__name__ = cond.__qualname__ = f"shared_{predname}"
+            self._dep_cache[key] = ovld.dependent.dependent_check(cond)
+        return self._dep_cache[key]
+
     def class_pred(self, predname):
         if predname not in self._cc_cache:
             raw = CLASS_PREDS[predname]
@@ -351,6 +371,15 @@ def ann(tx, env, spelling="typing"):
         return env.class_pred(a[0])
     if h == "L":
         return typing.Literal[tuple(a)]
+    if h == "D" and len(a) > 2 and a[2] == "shared":
+        # ["D", bound, pred, "shared"]: the shared condition object, bare when the bound is its own (int)
+        c = env.shared_check(a[1])
+        if a[0] == "int":
+            return c
+        key = ("Dsh", tname(tx))
+        if key not in env._dep_cache:
+            env._dep_cache[key] = Dependent[ann(a[0], env), c]
+        return env._dep_cache[key]
     if h == "D":
         # one object per (bound, predicate), the way a user names a dependent type once and reuses it
         key = ("D", tname(tx))
